@@ -141,6 +141,9 @@ def copy_direction(ct, rep, rule="copy-direction"):
     for st in walk_no_nested(f.node):
         if isinstance(st, ast.Assign) and isinstance(st.value, ast.Call) and norm(st.value.func) == "Path" and st.value.args and norm(st.value.args[0]) in f.params:
             newp = norm(st.targets[0])
+    fl = next((k for k in c.keywords if k.arg == "follow_symlinks"), None)
+    if fl is not None and not (isinstance(fl.value, ast.Constant) and fl.value.value is True):
+        rep.fail(rule, ct.mod.path.name, fq, c, "follow_symlinks is disabled: for a symlinked source the 'copy' is another link to the same file, not an independent byte-identical file")
     if src == "self.file_path" and dst in ([newp] + f.params):
         rep.ok(rule, f"{fq}: copies self.file_path -> {dst} (source first)", nontrivial=True)
     else:
@@ -185,14 +188,15 @@ def new_layout(ct, cd, rep, rule="new-layout"):
 def run(prog, rep):
     ct = Container(prog)
     cd = Codecs(prog)
+    cd.flag_errors(rep)
     rep.explanation = (
         "exists-before-create: every file-creating call in Tdf.new / Tdf.copy is dominated (CFG) by `if p.exists(): raise "
         "FileExistsError` on the same path value built from the argument; new-layout: the layout term of Tdf.new equals the "
         "reference header + 14 empty entries pointing at HDR + 14*ENT with nothing after the table; open-checks: "
         "FileNotFoundError in __init__, signature comparison before the first decoded field in __enter__; copy-direction."
     )
-    exists_before_create(ct, rep)
-    new_layout(ct, cd, rep)
-    open_checks(ct, cd, rep)
-    copy_direction(ct, rep)
+    rep.attempt(exists_before_create, ct, rep)
+    rep.attempt(new_layout, ct, cd, rep)
+    rep.attempt(open_checks, ct, cd, rep)
+    rep.attempt(copy_direction, ct, rep)
     rep.not_decided += ["the check-then-create race against another process", "symlinked paths"]
